@@ -270,6 +270,25 @@ def failover_close_audit(res, seed, count):
             break
 
 
+def forked_child(res):
+    """A connected client is carried across fork() (modelled: os.getpid() answers with a new value from some point on): in
+    the child too it has at most one open socket at a time, and what it stops using it closes"""
+    for stack in ("client", "pooled", "hash", "hashpooled"):
+        for skind in ("tcp1", "unix"):
+            for cfg in ({}, {"connect_timeout": 1.5, "timeout": 2.5}):
+                for ops in ([("get", ("h1",), {}), ("pidchange", (), {}), ("get", ("h1",), {}), ("set", ("k", b"v"), {"noreply": False})],
+                            [("set", ("k", b"v"), {"noreply": False}), ("pidchange", (), {}), ("get_many", (["h1", "k"],), {}), ("pidchange", (), {}), ("get", ("k",), {})]):
+                    case = {"stack": stack, "servers": SERVER_KINDS[skind], "cfg": cfg, "ops": ops + [("close", (), {})], "faulted": 0,
+                            "faults": {}, "seg": ("whole",), "skind": skind}
+                    o = execute(case)
+                    viol, _ = judge(case, o)
+                    res.count("ledger_checks")
+                    res.count("forked_child_histories")
+                    res.case(("forked", stack, skind, tuple(sorted(cfg.items())), len(ops)))
+                    for key, msg in viol:
+                        res.violation("forked-child:" + key, "after the pid changed: " + msg, case)
+
+
 def failover_close_targeted(res):
     """the histories behind the add_server defect (fixes/0016), spelled out instead of left to the random sequences: a server
     uses up its retries, recovers just before the call that takes it out of rotation (that call still runs - and succeeds -
@@ -347,6 +366,8 @@ def shard(tier, seed, idx, n):
     failover_close_audit(res, seed * 977 + idx, 40 if tier == "quick" else 600)
     if idx == 0:
         failover_close_targeted(res)
+    if idx == 1 % n:
+        forked_child(res)
     res.extra["groups_total"] = len(gs) if idx == 0 else 0
     res.extra["exhaustive"] = True
     res.extra["exhaustive_part"] = "depth-1 fault plans for every group; depth-2 plans exhaustive in thorough, sampled (12 per depth-1 plan) in quick"
